@@ -57,3 +57,16 @@ func VerifBurndownState(ba *BurndownAnalysis) (files map[string][][2]int, global
 
 // VerifAuthorSelf exports the authorSelf constant.
 func VerifAuthorSelf() int { return authorSelf }
+
+// VerifNewCouplesResult builds a CouplesResult including its unexported identity list.
+func VerifNewCouplesResult(peopleMatrix []map[int]int64, peopleFiles [][]int, filesMatrix []map[int]int64,
+	filesLines []int, files []string, dict []string) CouplesResult {
+	return CouplesResult{PeopleMatrix: peopleMatrix, PeopleFiles: peopleFiles, FilesMatrix: filesMatrix,
+		FilesLines: filesLines, Files: files, reversedPeopleDict: dict}
+}
+
+// VerifCouplesDict returns the identity list of a CouplesResult.
+func VerifCouplesDict(r CouplesResult) []string { return r.reversedPeopleDict }
+
+// VerifDevsTickSize returns the tick size of a DevsResult in nanoseconds.
+func VerifDevsTickSize(r DevsResult) int64 { return int64(r.tickSize) }
